@@ -10,7 +10,7 @@ P = {
  "C01": ("proptest generation + exhaustive sweeps (word x position, all 2048 final words for every count 0..40) against a bit-string BIP-39 reference, through from_phrase, FromStr and a CLI sample (--mnemonic=/MNEMONIC); libFuzzer in thorough",
          "Exploration: accept <=> reference-valid on ~0.5M phrases per quick run incl. the exhaustive word x position table and full final-word sweeps for every word count; canonical print/length/re-parse for every accepted phrase. Held on everything generated; the sweeps named exhaustive are complete.",
          "Trusts sha2 and the pinned copy of the English word list (sha256 checked); non-ASCII white space is unspecified and only checked for no panic; letter-case variants of list words are judged as unknown words (the list is lower case; 'the same words' and parse/print inversion exclude folding)."),
- "C10": ("exhaustive length sweep 0..1100 + powers of ten +-1 + proptest byte strings against an EIP-191 reference (sha3 Keccak, own decimal loop); histories of related messages; CLI sample",
+ "C10": ("exhaustive length sweep 0..1100 + powers of ten +-1 + proptest byte strings against an EIP-191 reference (sha3 Keccak, own decimal loop); histories of related messages; CLI sample incl. standard input in non-blocking mode delivered in two parts",
          "Exploration: digest equals the reference for every length 0..1100, all first-byte values, 10^k-1..10^k+1 up to 10^5 (10^7 thorough) and random/non-UTF-8 contents, through all three carriers.",
          "Trusts sha3::Keccak256."),
  "C02": ("proptest over mnemonics x Unicode passphrase classes against a written-out PBKDF2 reference; hand-written NFKD pair table (788 pairs, independent of unicode-normalization), layout metamorphism, call histories on one thread (independence from earlier computations) and a CLI sample",
@@ -22,25 +22,25 @@ P = {
  "C04": ("proptest + enumerated boundary scalars and all input lengths 0..64 against independent secp256k1/Keccak/EIP-55",
          "Exploration: public key, address bytes and EIP-55 text equal the reference for boundary and random scalars; out-of-range 32-byte secrets refused; other lengths refused or taken as the same integer.",
          "Reference secp256k1 cross-checked against k256; sha3 Keccak."),
- "C05": ("proptest over (key, digest) with range, independent verify/recover, purity, and RFC 6979 reference equality for digests < n; histories of related requests on one thread",
+ "C05": ("proptest over (key, digest) with range, independent verify/recover, purity, and RFC 6979 reference equality for digests < n; histories of related requests on one thread, then with every key object made on a thread of its own",
          "Exploration: every generated signature is in range, low-s, verifies and recovers to the signer under an independent implementation, is reproducible, and equals the RFC 6979 reference (HMAC-SHA256 DRBG written from the RFC) for digests below n.",
          "RFC 6979 reference checked against the RFC's A.2.5 nonce vector and the repository's pinned signature."),
- "C06": ("proptest over transaction records x keys against a reference transaction model, strict canonical RLP decode and sender recovery; lenient document shapes; near-copy histories on one thread",
+ "C06": ("proptest over transaction records x keys against a reference transaction model, strict canonical RLP decode and sender recovery; lenient document shapes; near-copy histories on one thread, sequential and with digest/encode calls interleaved",
          "Exploration: kind rule, signing digest and signed bytes equal the reference for every generated record; strict decoder returns every field unchanged; v/yParity formula; recovered sender equals the signer.",
          "Legacy chain ids are capped at c_max here (C11 covers the rest)."),
  "C07": ("exhaustive calldata-length / integer-width / list-size sweeps through the public API with a strict canonical RLP decoder; hook sweep of the length-header function over every length below 2^21 (2^26 thorough)",
          "Exploration with exhaustive parts: every calldata length 0..1100, every single byte, every integer width 0..32 in every field, access-list payloads around each boundary decode strictly to the original; header function equals the reference for every length in the swept range.",
          "Strict decoder is the canonicity oracle (unit-tested in the harness)."),
- "C08": ("tape-decoded generation of type graphs + conforming values against an AST-based EIP-712 reference; hook: encodeType string equality and exhaustive member-type grammar sweep; the same documents through the executable (hash/sign typeddata); histories of related documents on one thread",
+ "C08": ("tape-decoded generation of type graphs + conforming values against an AST-based EIP-712 reference; hook: encodeType string equality and exhaustive member-type grammar sweep; the same documents through the executable (hash/sign typeddata); histories of related documents on one thread; integer values written as number literals of 2^53 and more (refused or hashed as written)",
          "Exploration: domain separator, message hash and digest equal the reference on every generated document (shared/repeated/diamond/recursive dependencies, 3-dimensional arrays, all 100 atoms); encodeType strings equal; 15600-string grammar sweep is the identity.",
          "ASCII identifiers only; sha3 Keccak."),
- "C09": ("mutation of well-typed documents at a generated tree position + exhaustive width x boundary x spelling grid + acceptance controls + CLI sample",
+ "C09": ("mutation of well-typed documents at a generated tree position (undeclared members also named after existing fields) + exhaustive width x boundary x spelling grid + acceptance controls + CLI sample",
          "Exploration: every mutated (non-conforming) document is refused without panic; in-range boundary controls are accepted and hash to the reference; grid over 32 widths x {uint,int} x boundaries x spellings is exhaustive; sign/hash typeddata fail with empty stdout on a sample.",
          "Float literals f64 cannot carry exactly are excluded (known finding under C13)."),
  "C13": ("proptest over field x spelling (well-formed / malformed / exact-or-refuse literal / unspecified) against the reference encoding and an arbitrary-precision JSON-number oracle, in-process and through `hash transaction` (file and stdin)",
          "Exploration: all spellings of an integer give the reference encoding; every malformed spelling is refused; literals are exact or refused (one open known finding: json-float-literal-rounded); byte fields/addresses/storage keys strict.",
          "Rust's f64 parser is used only inside the known-finding predicate."),
- "C20": ("exhaustive truth table over domain member lists (326 orderings, 3905 sequences, type substitutions, foreign fields) + generated mixtures",
+ "C20": ("exhaustive truth table over domain member lists (326 orderings, 3905 sequences, type substitutions incl. wrapped widths, foreign fields, look-alike names) + generated mixtures",
          "Exploration with exhaustive core: accepted <=> well-formed per the property for every enumerated domain type; accepted ones hash to the reference domain separator; refusal is independent of the message.",
          "sha3 Keccak."),
  "C11": ("CLI proptest over chain-id classes x modes x override flag with strict RLP decode, exact-integer v check, reference recovery and a cross-chain metamorphic relation; in-process Signature::v sweep; thorough repeats on the plain release build",
@@ -61,7 +61,7 @@ P = {
  "C12": ("fault injection at getentropy: in-process scripted outcomes per call (byte patterns, one-bit-from-previous, EIO/EINTR/ENOSYS) for every length 0..40 and beyond; LD_PRELOAD shim with deterministic logged stream and failure at call k for `new` and the vanity search, judged by the BIP-39 reference; real-entropy distinctness runs",
          "Fault enumeration / exploration: for every supported length exactly one request of 4L/3 bytes, phrase == reference encoding of exactly the delivered bytes, parses back; unsupported lengths and every injected failure give an error with nothing printed; vanity search with failure from call k prints exactly the first matching block among 0..k-1 or fails.",
          "The interposer sees only hdwallet's own requests (Rust std does not use getentropy on Linux); a hang after an injected failure is reported as inconclusive."),
- "C16": ("CLI differential: exhaustive subcommand x selector x flag-or-env matrix plus generated configurations (mnemonic, Unicode passphrase, index/path, option spelling, file/stdin channel, payload) against the reference stack end to end; flag-vs-environment twin runs",
+ "C16": ("CLI differential: exhaustive subcommand x selector x flag-or-env matrix plus generated configurations (mnemonic, Unicode passphrase, index/path, option spelling, file/stdin channel, payload, phrase in other white-space layouts) against the reference stack end to end; flag-vs-environment twin runs",
          "Exploration: every subcommand prints exactly the reference result for the selected account (address, key, public key, RFC 6979 signatures over the reference digests, hashes), sign/hash pairs agree, env and flags are interchangeable, both selectors together are refused.",
          "Typed-data payloads are kept simple here (C08/C09 own the typed-data space); clap's own option parsing is trusted."),
  "C18": ("CLI runs of the vanity search over all 16 single digits in both cases, 2- and 3-digit prefixes, thread counts 0/1/2/16, selectors and lengths, with a deterministic logged entropy shim (and real entropy / plain release build in thorough); schedule-independent oracle",
